@@ -68,13 +68,41 @@ func runOne(ctx context.Context, s solverSpec, file string, timeoutS int) (statu
 	return
 }
 
-// Solve races the solvers on an obligation; first definitive answer (sat/unsat) wins.
+// Solve discharges an obligation: first on the cone of influence of the goal, then (if that does not succeed)
+// with every assumption, and finally once more with a longer timeout (robustness under machine load).
 func (lib *SpecLib) Solve(o *Obligation, timeoutS int, all bool) *SolveResult {
+	o.NoSlice = false
+	r := lib.solve1(o, timeoutS, all, "")
+	if r.Status == "unsat" || o.Canary {
+		return r
+	}
+	if len(o.fullAssumes) != len(o.Assumes) {
+		o.NoSlice = true
+		r2 := lib.solve1(o, timeoutS, all, ".full")
+		if r2.Status == "unsat" {
+			return r2
+		}
+		if r.Status == "sat" && r2.Status != "sat" {
+			r = r2
+		} else if r2.Status == "sat" {
+			r = r2
+		}
+	}
+	if r.Status == "timeout" || r.Status == "unknown" {
+		r3 := lib.solve1(o, timeoutS*4, all, ".retry")
+		if r3.Status == "unsat" || r3.Status == "sat" {
+			return r3
+		}
+	}
+	return r
+}
+
+func (lib *SpecLib) solve1(o *Obligation, timeoutS int, all bool, suffix string) *SolveResult {
 	if o.Timeout > 0 && !all {
 		timeoutS = o.Timeout
 	}
 	os.MkdirAll(workDir, 0o755)
-	base := filepath.Join(workDir, sanitize(o.Name))
+	base := filepath.Join(workDir, sanitize(o.Name)+suffix)
 	files := map[string]string{}
 	for _, style := range []string{"z3", "cvc5"} {
 		f := base + "." + style + ".smt2"
